@@ -33,6 +33,12 @@ pub fn cases(ctx: &Ctx) -> Vec<WCase> {
                 }
             }
         }
+        // a third of the meshes: one peer's game really diverges, so that DesyncDetected events are raised against
+        // several addresses (which address is told what must not depend on hash order)
+        if rr.chance(0.33) {
+            let who = rr.below(s.peers.len() as u64) as usize;
+            s.diverge = Some((who, rr.range(20, 150) as i32));
+        }
         out.push(wcase(format!("mesh-{i}"), s));
     }
     for i in 0..ctx.n(800, 30_000) {
@@ -135,7 +141,7 @@ pub fn check(ctx: &Ctx) -> i32 {
     let res = par_run(ctx, &cs, &|c: &WCase| c.id.clone(), &|c: &WCase| run_case_k(c, reps));
     let meta = Meta {
         level: "exploration",
-        rule: format!("every scenario is executed {reps} times inside one process (each std HashMap gets a fresh RandomState, magic numbers and sync nonces are fresh random values) under the deterministic simulated clock and network, whose per-link PRNG streams and canonical delivery order make 'same received packets in the same order' hold inductively as long as each session's per-link output is deterministic. Scenarios: C01's space restricted to meshes of 3-4 peers or 2 local players per peer, 2-3 spectators, desync detection on, different input delays per local player (set_input_delay), plus two-peer deaths with two players per side, plus four-peer meshes in which two peers drop out one after the other (the first dropped by everybody with disconnect_player, the second by one survivor only, so that the other adopts it from gossip while holding a dead endpoint). Compared between repetitions, per node: the hash of every request list (kinds, frames, input values, statuses), final state, API results, and per remote address the event sequence with virtual timestamps. Non-trivial: >= 2 hash-iterated collections with >= 2 entries (players per peer / remotes / spectators) and >= 1 rollback. Distinct: configuration + trace hash."),
+        rule: format!("every scenario is executed {reps} times inside one process (each std HashMap gets a fresh RandomState, magic numbers and sync nonces are fresh random values) under the deterministic simulated clock and network, whose per-link PRNG streams and canonical delivery order make 'same received packets in the same order' hold inductively as long as each session's per-link output is deterministic. Scenarios: C01's space restricted to meshes of 3-4 peers or 2 local players per peer, 2-3 spectators, desync detection on, different input delays per local player (set_input_delay), a genuinely diverging peer in a third of them, plus two-peer deaths with two players per side, plus four-peer meshes in which two peers drop out one after the other (the first dropped by everybody with disconnect_player, the second by one survivor only, so that the other adopts it from gossip while holding a dead endpoint). Compared between repetitions, per node: the hash of every request list (kinds, frames, input values, statuses), final state, API results, and per remote address the event sequence with virtual timestamps. Non-trivial: >= 2 hash-iterated collections with >= 2 entries (players per peer / remotes / spectators) and >= 1 rollback. Distinct: configuration + trace hash."),
         assumptions: std_assumptions(),
         floor_nontrivial: if ctx.quick() { 200 } else { 5000 },
         exhaustive: None,
